@@ -556,11 +556,13 @@ func runOneScript(rc *RunCtx, i, k int, sw *scriptWorld, sc *scriptCase, q *bs.Q
 
 	// arm the plan relative to this query
 	l0 := len(sw.log.Snapshot())
-	sw.plan.mu.Lock()
-	sw.plan.base = map[string]int{}
+	// (the log is consulted before plan.mu is taken: the log calls decide under its own mutex)
+	base := map[string]int{}
 	for _, kind := range []string{"OpenFile", "Read", "Seek", "IterYield", "Iter"} {
-		sw.plan.base[kind] = sw.log.Count(kind)
+		base[kind] = sw.log.Count(kind)
 	}
+	sw.plan.mu.Lock()
+	sw.plan.base = base
 	sw.plan.faults = sc.Faults
 	sw.plan.delays = sc.Delays
 	sw.plan.injected = nil
